@@ -271,7 +271,7 @@ def locate(cmap, line):
     return None, None, None
 
 
-def validate(work, files, module, props, constants=None, timeout=1800, maxviol=40, nchunks=None, heap=None, independent=False):
+def validate(work, files, module, props, constants=None, timeout=1800, maxviol=40, nchunks=None, heap=None, independent=False, jobs=None):
     """run the trace specification `module` over the NDJSON files, in parallel chunks.
     returns dict(lines, viol=[{clause, chunk, line, src, srcline, resetline}], drift=[...], cnt={...})"""
     d = work.sub("val")
@@ -302,7 +302,7 @@ def validate(work, files, module, props, constants=None, timeout=1800, maxviol=4
         return k, res, time.time() - t0
 
     t0 = time.time()
-    with cf.ThreadPoolExecutor(max_workers=min(max(4, NCPU // 2), len(chunks))) as ex:
+    with cf.ThreadPoolExecutor(max_workers=min(jobs or max(4, NCPU // 2), len(chunks))) as ex:
         for k, res, dt in ex.map(one, range(len(chunks))):
             path, cmap = chunks[k]
             agg["lines"] += res["lines"]
